@@ -515,6 +515,12 @@ func c05(c *core.Ctx) {
 		}
 		c.EndRule()
 	}
+
+	// ---------------------------------------------------------------- R9 (shared)
+	// a header accessor that stays in its receiving state takes (and blocks for) another frame on every call: on a
+	// ping-pong stream the second Header() blocks for ever holding the receive lock (C20/R6)
+	c.Borrow("C20", map[string]string{"R6": "R9"}, c20)
+
 }
 
 // isConstructorLike: the access initialises a composite literal (the base
